@@ -529,6 +529,11 @@ def plan_C13(tier):
         items += co(src="stream", l=2, i=2, p=1, term="for_each", stack=stack, lm=1, wp=1, st=1, dr=1)
         if len(stack) <= 2:
             items += co(src="vec", l=3, term="for_each", stack=stack, lm=2, wp=1, dr=1)
+    # two stacked limits: the outermost one is the limit of the operation
+    for (a, b) in ((3, 1), (1, 2), (2, 0), (0, 1)):
+        items += co(src="stream", l=3, i=3, p=1, term="for_each", stack="lml", lm=a, lm2=b, wp=1, sw=0)
+        items += co(src="vec", l=3, term="for_each", stack="ll", lm=a, lm2=b, wp=2)
+        items += co(src="stream", l=3, i=3, p=0, term="for_each", stack="lel", lm=a, lm2=b, wp=2)
     # never-completing closure futures: saturation and structured completion
     for wnv in (1, 2, 3):
         items += co(src="stream", l=3, i=3, p=1, term="for_each", stack="l", lm=2, wp=1, wnv=wnv)
